@@ -18,11 +18,11 @@ import framework
 import gen
 import harness
 
-from checks import c01, c02, c03, c04, c14
+from checks import c01, c02, c03, c04, c14, c17
 
 
 def sync_base(rng):
-    kind = rng.choice(["sel", "cb", "rtc", "fail", "res"])
+    kind = rng.choice(["sel", "cb", "rtc", "fail", "res", "clone"])
     if kind == "sel":
         scn = c01.scenarios(rng, 1, coro=0.0)[0]
     elif kind == "cb":
@@ -37,8 +37,22 @@ def sync_base(rng):
         # (gathered siblings of the failed callback still run), so a second index would not name the
         # same callback in both twins
         scn["failAt"] = scn.get("failAt", [])[:1]
+    elif kind == "clone":
+        # a machine is still the same machine after copy.deepcopy / pickle: the twins are copied at the same point
+        scn = c17.scenario(rng)
+        scn["steps"] = [st for st in scn["steps"] if st.get("api") not in ("write_setter", "write_model")]
+        # (no crash points by invocation number: a clone of a not yet activated async machine runs its activation
+        # callbacks later than its plain twin, so the numbers would name different callbacks)
+        scn["failAt"] = []
     else:
         scn = c14.scenario(rng)
+    if scn.get("lender"):
+        # (a lender machine that nobody drives stays unactivated in the async twin: not a difference of behaviour)
+        scn["steps"] = [st for st in scn["steps"] if not (st["op"] == "new" and st["i"] == 2)]
+        for st in scn["steps"]:
+            if st.get("api") == "send_from":
+                st["api"] = "send"
+        scn["lender"] = False
     d = scn["classes"][0]
     for cb in d["cbs"]:
         cb["coro"] = False
@@ -91,9 +105,20 @@ def variants(rng, base, max_single):
 
 
 def outcome_lines(res):
-    return [(ln["k"], ln["res"]["k"], tuple(ln["res"]["items"]), tuple(sorted(ln["exc"].items())),
-             tuple((p["cur"], p["state"], tuple(p["allowed"])) for p in ln["proj"]))
-            for ln in res["lines"] if ln["e"] == "ret" and ln.get("cmp", True)]
+    """What the callers of EVENTS got back and what the machine they addressed then showed.  (An async machine activates
+    at its first event: until then - after add_listener, a custom attribute, a copy - it legitimately shows no state
+    where its plain twin already sits in the initial one; the trace validation covers those steps.)"""
+    out = []
+    call = None
+    for ln in res["lines"]:
+        if ln["e"] in ("call", "new"):
+            call = ln
+        elif ln["e"] == "ret" and ln.get("cmp", True) and call is not None and call["e"] == "call" and call.get("api") in (
+                "send", "send_from", "event", "events_item", "allowed_item", "bound", "mixin_bound"):
+            p = ln["proj"][ln["i"] - 1]
+            out.append((ln["k"], ln["res"]["k"], tuple(ln["res"]["items"]), tuple(sorted(ln["exc"].items())),
+                        (p["cur"], p["state"], tuple(p["allowed"]))))
+    return out
 
 
 def run(pid, tier, seed, replay):
